@@ -121,3 +121,24 @@ package lib
 //@   ensures -1 <= i && i < len(s)
 //@   ensures i >= 0 ==> s[i] == c
 //@   ensures forall k int :: 0 <= k && k < len(s) && (i < 0 || k < i) ==> s[k] != c
+
+// ---- byte-level substring search and backward decoding (string prefix filters) ----
+// lit occurs in s at byte offset i
+//@ spec func SubAt(s string, i int, lit string) bool = 0 <= i && i + len(lit) <= len(s) && forall j int {lit[j]} :: 0 <= j && j < len(lit) ==> s[i+j] == lit[j]
+//@ lib func strings.Index(s string, substr string) (r int)
+//@   pure
+//@   ensures[range] r == -1 || SubAt(s, r, substr)
+//@   ensures[first] forall k int {mark(k)} {s[k]} :: 0 <= k && (r < 0 || k < r) ==> !SubAt(s, k, substr)
+// PrevStart(s, i): start of the rune that ends at byte i when s is decoded backwards from i (0 < i <= len(s)); it looks
+// at the bytes before i only
+//@ ghost func PrevStart(s string, i int) int
+//@ axiom prevstart-range:  forall s string, i int {PrevStart(s, i)} :: 0 < i && i <= len(s) ==> i - 4 <= PrevStart(s, i) && PrevStart(s, i) < i && 0 <= PrevStart(s, i)
+//@ axiom prevstart-prefix: forall s string, i int {PrevStart(s[:i], i)} :: 0 < i && i <= len(s) ==> PrevStart(s[:i], i) == PrevStart(s, i)
+//@ lib func utf8.DecodeLastRuneInString(s string) (r rune, size int)
+//@   pure
+//@   ensures len(s) == 0 ==> size == 0
+//@   ensures len(s) > 0 ==> size == len(s) - PrevStart(s, len(s)) && 1 <= size && size <= 4
+// Back(s, i, n): byte offset reached from i by stepping n runes backwards
+//@ ghost func Back(s string, i int, n int) int
+//@ axiom back-0:    forall s string, i int {Back(s, i, 0)} :: Back(s, i, 0) == i
+//@ axiom back-step: forall s string, i int, n int {Back(s, i, n)} :: 0 <= n && 0 < Back(s, i, n) && Back(s, i, n) <= len(s) ==> Back(s, i, n + 1) == PrevStart(s, Back(s, i, n))
